@@ -38,7 +38,13 @@ struct Cfg {
     kind: SessKind,
     len: usize,
     reliable: bool,
+    /// a group (multicast) data message instead of a unicast one; `kind` then only names the
+    /// bystander sessions
+    group: bool,
 }
+
+const GROUP_ID: u16 = 0x0101;
+const OTHER_GROUP_ID: u16 = 0x0202;
 
 type Log = Rc<RefCell<Vec<(u16, u8, Vec<u8>)>>>;
 
@@ -83,8 +89,20 @@ fn build(cfg: &Cfg) -> World {
     let a = Owned::from_box(nodes::new_matter());
     let b = Owned::from_box(nodes::new_matter());
     let (ma, mb) = (a.get(), b.get());
-    nodes::add_fabric(ma);
-    nodes::add_fabric(mb);
+    if cfg.group {
+        // a real fabric (group messages carry the sender's operational node id), same group keys at both ends
+        use crate::common::creds;
+        let c = nodes::crypto(SeededRng::new(900));
+        let fab = creds::mint_fabric(&c, 1, false, rs_matter::cert::gen::VALID_FOREVER, 0xA1).unwrap();
+        for (m, node) in [(ma, NODE_A), (mb, NODE_B)] {
+            let nc = creds::mint_noc(&c, &fab, node, &[], rs_matter::cert::gen::VALID_FOREVER, None).unwrap();
+            let idx = creds::install(m, &c, &fab, &nc, NODE_A).unwrap();
+            nodes::add_group_keys(m, idx, &[(GROUP_ID, 1, 0x11), (OTHER_GROUP_ID, 2, 0x12)]);
+        }
+    } else {
+        nodes::add_fabric(ma);
+        nodes::add_fabric(mb);
+    }
     let (k1, k2, k3, k4) = (nodes::key(0x11), nodes::key(0x22), nodes::key(0x33), nodes::key(0x44));
     // session under test: A(local 1, peer 2) <-> B(local 2, peer 1)
     nodes::install_session(ma, SeededRng::new(101), cfg.kind, NODE_A, NODE_B, 1, 2, addr_of(1), &k2, &k1).unwrap();
@@ -115,9 +133,13 @@ fn build(cfg: &Cfg) -> World {
             let c = nodes::crypto(SeededRng::new(104));
             let client = async {
                 let r: Result<(), Error> = async {
-                    let mut ex = match cfg2.kind {
-                        SessKind::Case => Exchange::initiate(ma, &c, NonZeroU8::new(1).unwrap(), NODE_B).await?,
-                        SessKind::Pase => Exchange::initiate_pase(ma, &c, addr_of(1), 20202021).await?,
+                    let mut ex = if cfg2.group {
+                        Exchange::initiate_group(ma, &c, ma.kv(crate::common::kv::RecKv::new()), NonZeroU8::new(1).unwrap(), GROUP_ID)?
+                    } else {
+                        match cfg2.kind {
+                            SessKind::Case => Exchange::initiate(ma, &c, NonZeroU8::new(1).unwrap(), NODE_B).await?,
+                            SessKind::Pase => Exchange::initiate_pase(ma, &c, addr_of(1), 20202021).await?,
+                        }
                     };
                     ex.send(MessageMeta::new(PROTO, 7, cfg2.reliable), &payload(cfg2.len)).await?;
                     if cfg2.reliable {
@@ -165,6 +187,7 @@ fn projection(m: &Matter<'_>) -> Vec<String> {
                     s.get_dec_key().map(|k| hex(k.access())).unwrap_or_default(),
                 )
             })
+            .chain(std::iter::once(format!("group-rx-windows {:?} group-tx-counter {:?}", state.verif_sessions().verif_group_rx_tracked().collect::<Vec<_>>(), state.verif_sessions().verif_group_ctr_state())))
             .collect()
     })
 }
@@ -213,10 +236,19 @@ fn sweep(cfg: &Cfg, acc: &mut Acc) -> Result<(), String> {
     let mut w = build(cfg);
     w.exec.run()?;
     let mut steps = 0;
+    let mut multicast_done = 0usize;
     loop {
         steps += 1;
         if steps > 200 {
             break;
+        }
+        // a group message goes to a multicast address: the harness is the network that carries it to B
+        if cfg.group && w.net.inflight_len() == 0 {
+            let next = w.net.0.borrow().log.iter().filter(|d| d.from == 0 && d.to == usize::MAX).nth(multicast_done).cloned();
+            if let Some(d) = next {
+                multicast_done += 1;
+                w.net.inject(0, 1, d.bytes.clone());
+            }
         }
         if w.net.inflight_len() == 0 {
             if *w.done.borrow() {
@@ -238,12 +270,30 @@ fn sweep(cfg: &Cfg, acc: &mut Acc) -> Result<(), String> {
         let other_sess: u16 = if d.to == 1 { 6 } else { 5 };
         let app_before = (w.log_b.borrow().len(), w.replies_a.borrow().len());
         let mut muts = mutations(&d.bytes, other_sess);
+        if cfg.group && d.bytes.len() > 18 {
+            // counter moved far ahead / behind, another sender, another group the node has a key for
+            for delta in [16u32, 17, 1000, 0x8000_0000, u32::MAX - 15] {
+                let mut m = d.bytes.clone();
+                let c = u32::from_le_bytes([d.bytes[4], d.bytes[5], d.bytes[6], d.bytes[7]]).wrapping_add(delta);
+                m[4..8].copy_from_slice(&c.to_le_bytes());
+                muts.push(("group-counter-moved".into(), m));
+            }
+            let mut m = d.bytes.clone();
+            m[8..16].copy_from_slice(&0x7777_0000_0000_0001u64.to_le_bytes());
+            muts.push(("group-other-sender".into(), m));
+            let mut m = d.bytes.clone();
+            m[16..18].copy_from_slice(&OTHER_GROUP_ID.to_le_bytes());
+            muts.push(("group-other-group-id".into(), m));
+        }
         // the same datagram offered to the opposite direction (to its own sender)
         let reverse_target = d.from;
         for (what, bytes) in muts.drain(..) {
             inject_and_check(cfg, &mut w, dest, d.from, d.to, &what, &bytes, &d.bytes, app_before, acc)?;
         }
-        inject_and_check(cfg, &mut w, src, d.to, reverse_target, "reverse-direction", &d.bytes, &d.bytes, app_before, acc)?;
+        if !cfg.group {
+            // (a group message offered to its own sender is a valid message for another member of the group)
+            inject_and_check(cfg, &mut w, src, d.to, reverse_target, "reverse-direction", &d.bytes, &d.bytes, app_before, acc)?;
+        }
         // finally the untouched datagram
         vclock::advance_by_ms(1);
         w.net.deliver(0, false);
@@ -338,9 +388,20 @@ pub fn run_check(ctx: &Ctx) -> i32 {
     for kind in [SessKind::Case, SessKind::Pase] {
         for &len in &lens {
             for reliable in [true, false] {
-                cfgs.push(Cfg { kind, len, reliable });
+                cfgs.push(Cfg { kind, len, reliable, group: false });
             }
         }
+    }
+    // group (multicast) data messages; bystander sessions of either kind
+    for kind in [SessKind::Case, SessKind::Pase] {
+        for &len in &lens {
+            if len <= 1000 {
+                cfgs.push(Cfg { kind, len, reliable: false, group: true });
+            }
+        }
+    }
+    if let Ok(f) = std::env::var("MC_C03_FILTER") {
+        cfgs.retain(|c| format!("{:?}", c).contains(&f));
     }
     let results: Vec<Acc> = cfgs
         .par_iter()
@@ -376,7 +437,7 @@ pub fn run_check(ctx: &Ctx) -> i32 {
     ev.set("evaluations", json!(inj))
         .set("distinct_nontrivial", json!(dg))
         .set("exhaustive", json!(true))
-        .set("rule", json!(format!("for {} configurations (CASE / PASE session x payload lengths {:?} x reliable / unreliable) every datagram of the honest conversation (request, reply with piggy-backed ack, standalone acks) is attacked before delivery with every single-bit flip, every truncation, extension by 1 and 16 bytes, the session id of another live session, counter +1 / -1 and delivery to the opposite direction; distinct_nontrivial = datagrams swept", cfgs.len(), lens)))
+        .set("rule", json!(format!("for {} configurations (CASE / PASE session x payload lengths {:?} x reliable / unreliable, plus a group data message per length) every datagram of the honest conversation (request, reply with piggy-backed ack, standalone acks) is attacked before delivery with every single-bit flip, every truncation, extension by 1 and 16 bytes, the session id of another live session, counter +1 / -1 and delivery to the opposite direction (group messages additionally: counter moved by 16 / 17 / 1000 / 2^31 / -16, another sender id, another group id the node holds a key for); the projection includes the per-sender group receive windows and the group transmit counter; distinct_nontrivial = datagrams swept", cfgs.len(), lens)))
         .set("datagram_shapes", json!(shapes.len()))
         .set("untouched_messages_decoded_identically", json!(ok))
         .set("samples", json!([{"cfg": format!("{:?}", cfgs[0]), "mutation": "bitflip:plain-header (byte 1 bit 0: session id)"}]));
